@@ -262,6 +262,9 @@ def random_case(rng):
             d['ann'] = 'method'
         elif x < 0.18 and d['ret']['ns'] in ('cur', 'inc'):
             d['ann'] = 'constructor'
+        if d['ann'] != '-' and tw and rng.random() < 0.45:
+            # what the annotations are for: names that do not start with the type's prefix
+            d['w'] = sym_prefix() + rng.choice([['make'] + tw, ['renew'] + tw, ['do'] + tw + ['max'], tw[::-1] + ['make'], ['with'] + tw[-1:]])
         add(d)
     for _ in range(rng.choice([0, 1, 1, 2])):
         add(decl('const', sym_prefix() + [rng.choice(FUNC_POOL + TYPE_POOL) for _ in range(rng.choice([1, 2]))], rng.random() < 0.1))
@@ -544,7 +547,7 @@ def run():
                     for cfg, lab in (('Naming_prefix.cfg', '18 prefix configurations x 1..2 declarations of 84 shapes'),
                                      ('Naming_order.cfg', '1..2 compounds x 5 typedef/struct arrangements x registration x function; order independence'),
                                      ('Naming_pair.cfg', '99 type pairs x 750 functions x dump/no dump'),
-                                     ('Naming_pair2.cfg', '99 type pairs x 45 x 44 function pairs x dump/no dump')):
+                                     ('Naming_pair2.cfg', '36 type pairs x 45 x 44 function pairs x dump/no dump')):
                         ck.tlc_mc('NamingMC', cfg, workers=max(1, NCPU - 2), timeout=20000, label=lab)
                 ck.tlc_mc('NamingMC', 'Naming_uscore.cfg', workers=2, timeout=3000, coverage=False,
                           label='to_underscores sub-model: word-shaped strings split at capitals, all strings <= 7 over {U,l,d}')
